@@ -366,6 +366,38 @@ def rule_e5(F):
         r.inst("unify IntVar with Name", {"ok": ok})
         if not ok:
             r.bad(ub.path, "IntVar/Name", relfile(ub.file), ub.line, "unifying an integer literal with a named type no longer distinguishes is_signed_int / is_int by MustBeSigned")
+    # unify_intvars: the surviving root keeps the stronger signedness requirement
+    ib = find_tc(F, "unify_intvars")
+    if ib is None:
+        r.missing("unify_intvars")
+    else:
+        pn = [p.get("name") for p in ib.hir["params"]]
+        flag_of = {}
+        for i, n in enumerate(pn):
+            if n and i + 1 < len(pn) and pn[i + 1] and pn[i + 1].endswith("signed"):
+                flag_of[n] = pn[i + 1]
+        sets = []
+        for c in hir.nodes(ib.hir["value"], "mcall"):
+            if c["m"] != "set" or len(c["args"]) < 2:
+                continue
+            child = names(c["args"][0])
+            ctor = hir.strip(c["args"][1])
+            if ctor.get("k") == "call" and (hir.call_def(ctor) or "").endswith("Type::IntVar") and len(ctor["args"]) == 2:
+                root = names(ctor["args"][0])
+                flag = names(ctor["args"][1])
+                sets.append((child, root, flag, c["line"]))
+        r.inst("unify_intvars links", {"links": [(sorted(a), sorted(b_), sorted(f)) for a, b_, f, _ in sets]})
+        if len(sets) < 2:
+            r.bad(ib.path, "links", relfile(ib.file), ib.line, "unify_intvars must be able to make either variable the root (so that a `must be signed` root survives); found %d link site(s)" % len(sets))
+        for child, root, flag, line in sets:
+            if len(root) == 1 and list(root)[0] in flag_of and flag != {flag_of[list(root)[0]]}:
+                r.bad(ib.path, "flag on link", relfile(ib.file), line,
+                      "the link %s -> %s records the signedness flag %s, but lookups read the flag stored at the root (%s): the `must be signed` requirement of a negated literal is lost when it is merged with another literal" % (sorted(child), sorted(root), sorted(flag), flag_of[list(root)[0]]))
+        # the Yes-over-No priority test exists
+        conds = [i for i in hir.nodes(ib.hir["value"], "if") if any((hir.res_def(n) or "").endswith("MustBeSigned::Yes") for n in hir.walk(i["cond"]) if n.get("k") == "path")]
+        r.inst("priority test", {"found": len(conds)})
+        if not conds:
+            r.bad(ib.path, "priority", relfile(ib.file), ib.line, "unify_intvars no longer gives MustBeSigned::Yes priority when choosing the root")
     return r
 
 
